@@ -391,6 +391,11 @@ def oracle(case, sc, o):
                         'suffixes nsol/npool are given a value although the problem has no objective (model without objective, or error before '
                         'the problem is populated): SetValue(0, …) on an empty suffix' % d))
             return dev
+        if o['kind'] == 'crash' and sc.get('undefined_lcons') and sc.get('graph') and \
+                (o.get('frame') in ('ExportLogCon', 'WriteExpr', 'Visit', 'VisitNumeric', 'VisitLogical') or 'ExportLogCon' in sc.get('stack', '')):
+            dev.append(('crash:exportlogcon-undefined', 'crash (%s) in ProblemFlattener::ExportLogCon: with cvt:writegraph the logical constraint is written out '
+                        '(WriteExpr on its null expression) before ConvertLogicalCon\'s "has no expression" check is reached' % d))
+            return dev
         if o['kind'] == 'crash' and o.get('frame') in ('VisitPowConstBase', 'VisitPowConstExp'):
             dev.append(('crash:pow-constant-operand', 'crash (%s) in ProblemFlattener::%s: Cast<NumericConstant>(operand).value() on an operand that is not a '
                         'NumericConstant node ((1+1)^x through VisitPow; opcodes 76/78 with a non-constant "constant" operand)' % (d, o.get('frame'))))
@@ -909,7 +914,24 @@ class CaseGen:
             self.add_fault(c)
             self.add_answer(c)
         self.add_extras(c)
+        self.add_graph_export(c)
         return c
+
+    def add_graph_export(self, c, p=(1, 3)):
+        """cvt:writegraph=<file>: the NL model and the reformulation graph are exported while flattening
+        (ExportVars / ExportCon / ExportLogCon / ExportObj ... run before each item is converted)"""
+        r = self.r
+        if not c.get('stub', True) or not r.chance(*p):
+            return
+        key = r.choice(['cvt:writegraph', 'writegraph', 'exportgraph', 'tech:writegraph'])
+        if c.get('natural') == 'none' and not c.get('just_export') and r.chance(1, 6):
+            tok = ('%s=@DIR@/no/such/dir/graph.jsonl' % key, 'o')
+            c['natural'] = ('convert', 'plain', None)          # "Failed to open the graph export file"
+        else:
+            tok = ('%s=@DIR@/graph.jsonl' % key, 'o')
+        c['options'] = c['options'] + [tok]
+        c['all_opts'] = c.get('all_opts_env', []) + c['options']
+        c['graph'] = True
 
     def malformed(self):
         """mutations of a valid NL text; ending unknown (inferred); the oracle is what counts here"""
@@ -958,6 +980,7 @@ class CaseGen:
         c['all_opts'] = []
         if r.chance(1, 4):
             self.add_options(c, p_bad=(0, 1))
+        self.add_graph_export(c, p=(1, 2))       # export on x malformed-but-readable NL
         return c
 
 
@@ -1086,6 +1109,18 @@ def corpus_cases(cg):
         L = c['nl'].split('\n'); L[5] = ' 0 2000 0 1'; L[2] = ' 1 0'; L[4] = ' 1 0 0'
         L[L.index('C0') + 1] = 'f%d 0' % fn_no
         c['nl'] = '\n'.join(L); c['natural'] = nat
+    # graph export on: valid model; undefined logical constraints (2 declared, 1 defined: the reviewer's input); other readable-but-odd files
+    mk('graph_export', options=[('cvt:writegraph=@DIR@/graph.jsonl', 'o')], graph=True)
+    mk('graph_export_unwritable', options=[('writegraph=@DIR@/no/such/dir/graph.jsonl', 'o')], graph=True, natural=('convert', 'plain', None))
+    m3 = lp(); m3.lcon(('le', ('v', 0), ('n', 5)))
+    c = cg.base('corpus:counterexample_exportlogcon_undefined', m3); c['all_opts'] = c['options'] = [('cvt:writegraph=@DIR@/graph.jsonl', 'o')]
+    L = c['nl'].split('\n'); t = L[1].split(); t[5] = '2'; L[1] = ' ' + ' '.join(t); c['nl'] = '\n'.join(L)
+    c['natural'] = ('convert', 'plain', None); c['graph'] = True; out.append(c)
+    c = cg.base('corpus:undefined_lcons_no_export', m3); c['all_opts'] = []
+    L = c['nl'].split('\n'); t = L[1].split(); t[5] = '2'; L[1] = ' ' + ' '.join(t); c['nl'] = '\n'.join(L)
+    c['natural'] = ('convert', 'plain', None); out.append(c)
+    c = mk('graph_export_undefined_defvars', options=[('cvt:writegraph=@DIR@/graph.jsonl', 'o')], graph=True)
+    L = c['nl'].split('\n'); L[9] = ' 2 0 0 0 0'; c['nl'] = '\n'.join(L); c['natural'] = None
     mk('exe_options_var', env={'@EXE@_options': 'cvt:bigM=5', 'recsolver_options': 'foo=1'}, all_opts=[('cvt:bigM=5', 'o')])
     mk('exe_options_var_bad', env={'@EXE@_options': 'foo=1'}, all_opts=[('foo=1', 'b')])
     mk('exe_alias_exe', exe_alias='rs.exe', env={'@EXE@_options': 'foo=1'}, all_opts=[('foo=1', 'b')])
@@ -1563,6 +1598,7 @@ def run(ck):
               'answer': c.get('answer', (0, True, True)), 'hdr_inconsistent': c09gen.header_inconsistent(c['nl']) if c.get('nl') else False,
               'undefined_lcons': c09gen.undefined_logical_cons(c['nl']) if c.get('nl') else False,
               'wants_nsol': any(t.startswith(('sol:stub', 'solstub', 'sol:count')) for t, _ in c.get('all_opts', [])),
+              'graph': bool(c.get('graph')), 'stack': r['err'][:6000] if o['kind'] == 'crash' else '',
               'cmdline': r.get('cmdline', ''), 'alts': r.get('alts') if c.get('altsol') is not None else None,
               'n_altsol_expected': (c['altsol'] if (c.get('altsol') is not None and ending is None) else None),
               'progress': 'report' if '"ev":"solve"' in r['log'] else ('convert' if '"ev":"begin"' in r['log'] else 'read-or-options'),
